@@ -390,6 +390,13 @@ class CallMixin:
             v = coerce(args[0], Str)
             ok = z3.Function("str.is_int_literal", z3.StringSort(), z3.BoolSort())  # same symbols as bi_int
             return VBool(z3.Or(z3.StrToInt(v.t) >= 0, ok(v.t)))
+        if name == "sorted_member_fact":
+            # instance of the trusted contract of sorted(): x in sorted(xs, key=k)  <=>  x in xs
+            kw = {"__member__": args[1]}
+            if kwargs.get("key") is not None:
+                kw["key"] = kwargs["key"]
+            self.bi_sorted([args[0]], kw, lineno)
+            return VBool(True)
         if name == "is_sorted":
             lst = args[0]
             if not (isinstance(lst, VList) and lst.elem is not None):
@@ -1335,7 +1342,7 @@ class CallMixin:
         if c is not NOCONST and not kwargs:
             return lift(sorted(c))
         lst = args[0]
-        if len(args) == 1 and isinstance(lst, VList) and lst.elem is not None and set(kwargs) <= {"key"}:
+        if len(args) == 1 and isinstance(lst, VList) and lst.elem is not None and set(kwargs) <= {"key", "__member__"}:
             # TRUSTED external contract of sorted(xs, key=k): a sequence of the same length with the same members
             # that is ordered by k. The result is an uninterpreted function of xs (same text => same term).
             seq = lst.term()
@@ -1345,11 +1352,18 @@ class CallMixin:
                 RECFUNS[fkey] = z3.Function(fresh_name("sorted"), seq.sort(), seq.sort())
             r = RECFUNS[fkey](seq)
             self.ufs_used.add("sorted(xs, key): trusted contract = same length, same members, ordered by key")
-            x = z3.Const(f"sx!{''.join(ch if ch.isalnum() else '_' for ch in lst.elem.name)}", lst.elem.sort())
-            self.assume(z3.Length(r) == z3.Length(seq))
-            self.assume(ordered(r))
-            self.assume(z3.ForAll([x], z3.Contains(r, z3.Unit(x)) == z3.Contains(seq, z3.Unit(x)),
-                                  patterns=[z3.Contains(r, z3.Unit(x)), z3.Contains(seq, z3.Unit(x))]))
+            # quantifier-free: the "same members" part of the contract is instantiated explicitly, per element, with
+            # the spec primitive sorted_member_fact(xs, x, key=...) (quantified axioms make every back end give up)
+            facts = [z3.Length(r) == z3.Length(seq), ordered(r)]
+            mem = kwargs.get("__member__")
+            if mem is not None:
+                facts.append(z3.Contains(r, z3.Unit(lst.elem.pack(mem))) == z3.Contains(seq, z3.Unit(lst.elem.pack(mem))))
+            for fact in facts:
+                if self.merge_depth == 0:
+                    # facts about a TOTAL trusted function hold whatever guards the current sub-expression is under
+                    self.run.pc.append(simp(fact))
+                else:
+                    self.assume(fact)  # under a binder the argument may mention bound variables: local fact
             return VList(lst.elem, seq=r)
         raise Unsupported("sorted() of symbolic sequence (give the callee a contract)")
 
